@@ -176,14 +176,45 @@ def r2_stages(ctx):
     cv = norm(s0.targets[0].slice.elts[1])
     tgt = R.text(s0.targets[0].slice.elts[0]).replace(f"[:, {cv}]",
                                                       "[:, ii]")
-    want_t = "np.logical_and(response == 0, np.isnan(samples[:, ii]))"
-    ctx.check(tgt == want_t, s0, f"imputation target rows: {tgt[:70]}",
+    def conj(text):
+        """the set of conjuncts of a mask expression (text)"""
+        try:
+            e = ast.parse(text, mode="eval").body
+        except SyntaxError:
+            return frozenset([text])
+        out = []
+
+        def go(x):
+            if isinstance(x, ast.BinOp) and isinstance(x.op, ast.BitAnd):
+                go(x.left)
+                go(x.right)
+            elif isinstance(x, ast.Call) and call_name(x) in (
+                    "np.logical_and", "numpy.logical_and"):
+                for a_ in x.args:
+                    go(a_)
+            else:
+                out.append(norm(x).replace("np.logical_not(", "~(")
+                           if not (isinstance(x, ast.Call) and call_name(x)
+                                   == "np.logical_not")
+                           else "~" + norm(x.args[0]))
+        go(e)
+        return frozenset(out)
+    ctx.check(conj(tgt) == {"response == 0", "np.isnan(samples[:, ii])"},
+              s0, f"imputation target rows: {tgt[:70]}",
               "imputation does not target exactly the zero-rated rows whose "
               "feature is NaN")
     val = R.text(s0.value).replace(f"[:, {cv}]", "[:, ii]")
-    want_v = ("np.mean(samples[:, ii][np.logical_and(response == 0, "
-              "~np.isnan(samples[:, ii]))])")
-    ctx.check(val == want_v, s0, f"imputed value: {val[:80]}",
+    okv = False
+    try:
+        ve = ast.parse(val, mode="eval").body
+        if isinstance(ve, ast.Call) and call_name(ve) == "np.mean" and len(
+                ve.args) == 1 and isinstance(ve.args[0], ast.Subscript) and \
+                norm(ve.args[0].value) == "samples[:, ii]":
+            okv = conj(norm(ve.args[0].slice)) == {
+                "response == 0", "~np.isnan(samples[:, ii])"}
+    except SyntaxError:
+        pass
+    ctx.check(okv, s0, f"imputed value: {val[:80]}",
               "the imputed value is not the mean of the feature over the "
               "other zero-rated, non-NaN samples")
     conds = conditions_at(s0, stop=imp)
@@ -369,7 +400,19 @@ def r4_export_load(ctx):
     ctx.check(bool(usr), ex,
               "response = user ratings", "response is not the user ratings")
     # samples: features of every stored curve in container order
-    gs = io.func("RateManager._get_samples")
+    gs = io.funcs.get("RateManager._get_samples")
+    gs_call = "RateManager._get_samples"
+    if gs is None:
+        # the static method moved to module level (or was renamed): the
+        # one function of rate/io.py that computes the features
+        cands = [(q, f_) for q, f_ in io.funcs.items()
+                 if any(call_name(c) and call_name(c).endswith(
+                     ".compute_features") for c in calls_in(f_))
+                 and "." not in q]
+        if len(cands) != 1:
+            raise AnchorError("rate/io.py: the function computing the "
+                              "exported samples was not found")
+        gs_call, gs = cands[0]
     ctx.analysed(gs)
     ok = any(call_name(c) == "idr.compute_features" and len(c.args) == 1
              and not c.keywords for c in calls_in(gs))
@@ -385,7 +428,7 @@ def r4_export_load(ctx):
               and dotted(n) in ("self.ratings", "self._ratings",
                                 "self.datasets")]
     sm = io.func("RateManager.samples")
-    fresh_samples = any(call_name(c) == "RateManager._get_samples" and
+    fresh_samples = any(call_name(c) in (gs_call, "RateManager") and c.args and
                         norm(c.args[0]) == "self.path" for c in calls_in(sm))
     fresh_rates = any(call_name(c) == "load" and norm(c.args[0]) ==
                       "self.path" for c in calls_in(gr))
